@@ -259,8 +259,18 @@ theorem rq_matrix_form_entry_mat (k : RQ ℝ) (mx my : Mat ℝ) (hx : mx.WF) (hy
       ∀ i j, i < mx.data.length → j < my.data.length → R.get i j = k.fwd mx.data[i]! my.data[j]! :=
   rq_matrix_form_entry k (.mat mx) (.mat my) hx hy (List.length_pos_iff.mpr hxn) (List.length_pos_iff.mpr hyn)
 
-/-- Non-vacuity and a concrete value: three points as a `Vector` against two points as a `2 × 1` `Matrix`. -/
+/-- Non-vacuity: all hypotheses of the matrix-form theorems instantiated on non-trivial inputs — four points as a
+`2 × 2` `Matrix` against two points as a `1 × 2` `Matrix`, three points as a `Vector` against two (RQ), and the
+statement really delivers a `2·2 × 2` result whose `(3,1)` entry is `k(4, 6)`. -/
 example : PtsWF (.mat ⟨[0, 1], 2, 1⟩ : Pts ℝ) := by simp [PtsWF, Mat.WF]
+example : ∃ R, (⟨2, 1 / 2⟩ : RBF ℝ).fwdM (.mat ⟨[0, 1, 3, 4], 2, 2⟩) (.mat ⟨[5, 6], 1, 2⟩) = some R ∧
+    R.nrows = 4 ∧ R.ncols = 2 ∧ R.get 3 1 = (⟨2, 1 / 2⟩ : RBF ℝ).fwd 4 6 := by
+  obtain ⟨R, hR, h1, h2, _, he⟩ := rbf_matrix_form_entry_mat (⟨2, 1 / 2⟩ : RBF ℝ) ⟨[0, 1, 3, 4], 2, 2⟩ ⟨[5, 6], 1, 2⟩
+    (by simp [Mat.WF]) (by simp [Mat.WF]) (by simp) (by simp)
+  exact ⟨R, hR, by simpa using h1, by simpa using h2, by simpa using he 3 1 (by simp) (by simp)⟩
+example : ∃ R, (⟨2, 3, 1 / 2⟩ : RQ ℝ).fwdM (.vec [0, 1, 3]) (.vec [5, 6]) = some R ∧ R.nrows = 3 ∧ R.ncols = 2 := by
+  obtain ⟨R, hR, h1, h2, _, _⟩ := rq_matrix_form_entry_vec (⟨2, 3, 1 / 2⟩ : RQ ℝ) [0, 1, 3] [5, 6] (by simp) (by simp)
+  exact ⟨R, hR, by simpa using h1, by simpa using h2⟩
 
 /-! ## Gram matrices are symmetric — for every scalar type with `powi a 2 = a*a` and `(a-b)² = (b-a)²` -/
 
@@ -289,6 +299,16 @@ theorem rq_gram_symm (hp : ∀ a : α, powi a 2 = a * a) (hsq : ∀ a b : α, (a
   simp only [RQ.fwd, hp, hsq x.points[i]! x.points[j]!]
 
 end gram
+
+section
+variable {α : Type} [Sub α] [Mul α] [Neg α]
+/-- `hsq` reduced to two primitive facts of the arithmetic (both exact in IEEE-754: `b - a` is `-(a - b)` — the
+same rounding of the negated exact difference — and `(-t) * (-t)` is `t * t`).  They are ASSUMED of `Float`
+(opaque), not proved; the oracle checks Gram symmetry bit for bit on every generated case. -/
+theorem hsq_of_neg_sub (hneg : ∀ a b : α, b - a = -(a - b)) (hmul : ∀ t : α, (-t) * (-t) = t * t) :
+    ∀ a b : α, (a - b) * (a - b) = (b - a) * (b - a) := by
+  intro a b; rw [hneg a b, hmul]
+end
 
 /-- The hypotheses of `rbf_gram_symm` are met by the reals. -/
 example : (∀ a : ℝ, powi a 2 = a * a) ∧ ∀ a b : ℝ, (a - b) * (a - b) = (b - a) * (b - a) :=
